@@ -13,8 +13,8 @@ def take_mux(count):
                 if type(i) is rs.OnNextMux:
                     value = i.store.get_state(state, i.key)
                     if value > 0:
-                        observer.on_next(i)
                         i.store.set_state(state, i.key, value - 1)
+                        observer.on_next(i)
 
                 elif type(i) is rs.OnCreateMux:
                     i.store.add_key(state, i.key)
